@@ -140,6 +140,34 @@ def _small_scopes(run):
                     yield f"scanwin {loc} {w} {step} {sp}"
 
 
+def _pair_grids(run):
+    """(1) Sequence.append over ALL ordered pairs of non-empty located pieces of a short parent, all strand pairs;
+    (2) every multi-operand operation over ALL pairs (from_single_intervals: also triples) of the parent-kind pool."""
+    n = 7 if run.tier == "quick" else 9
+    ivs = [(a, b) for a in range(n) for b in range(a + 1, n + 1)]
+    for (a1, b1) in ivs:
+        for (a2, b2) in ivs:
+            for st1, st2 in (("+", "+"), ("-", "-"), ("+", "-"), ("-", "+")):
+                yield f"sappend {n} {st1} {a1} {b1} {st2} {a2} {b2} 0"
+            if (a1 + b2) % 3 == 0:
+                yield f"sappend {n} - {a1} {b1} - {a2} {b2} 1"
+                yield f"sappend {n} + {a1} {b1} - {a2} {b2} 1"
+    for (a1, b1), (a2, b2) in (((0, 3), (3, 6)), ((0, 3), (2, 6)), ((3, 6), (0, 3))):
+        for st1 in "+-.":
+            for st2 in "+-.":
+                yield f"sappend {n} {st1} {a1} {b1} {st2} {a2} {b2} 0"
+    K = V.PARENT_KINDS
+    for op in list(V.PCONS_OPS) + ["append", "mkpar"]:
+        for i in range(K):
+            for j in range(K):
+                yield f"pcons {op} 2 {i} {j}"
+    for i in range(K):
+        for j in range(K):
+            for k in range(K):
+                if i == j or j == k or i == k:          # triples with at least two equal kinds (the rest adds nothing)
+                    yield f"pcons fsi 3 {i} {j} {k}"
+
+
 # ----------------------------------------------------------------------------------------------
 # the grid
 
@@ -205,6 +233,13 @@ def cases(run):
                     n_call += 1
                     run.count(f"call:{cn}")
                     yield line
+    # operand-pair grids ---------------------------------------------------------------------------
+    n_pair = 0
+    for line in _pair_grids(run):
+        if emit(line):
+            n_pair += 1
+            run.count("pair-grid:" + " ".join(line.split()[:2 if line.startswith("pcons") else 1]))
+            yield line
     # plain-data constructor lines: exhaustive small scopes ---------------------------------------
     n_small = 0
     for line in _small_scopes(run):
@@ -215,7 +250,9 @@ def cases(run):
     run.exhaustive = True
     EXHAUSTIVE_NOTE = (f"grid A: {n_ctor} constructor x corruption points over {len(V.CLASSES)} classes; grid B: {n_call} "
                        f"member x argument-tuple points over {len(V.CALL_CLASSES)} classes (every public property/method found "
-                       f"by introspection); {n_small} plain-data constructor lines enumerated exhaustively (SingleInterval "
+                       f"by introspection); {n_pair} operand-pair points (Sequence.append over all ordered pairs of located "
+                       f"pieces of a {7 if run.tier == 'quick' else 9}-base parent x strand pairs; every multi-operand operation over all pairs / triples of "
+                       f"{V.PARENT_KINDS} parent kinds); {n_small} plain-data constructor lines enumerated exhaustively (SingleInterval "
                        f"coords -1..4 x parent length; CompoundInterval all list pairs of length <= {2 if run.tier == 'quick' else 3} "
                        f"over -1..3; Parent 3x2x3x7x6x5 argument combinations; Sequence all strings of length <= 3 over 6 letters x 4 "
                        f"alphabets x 5 parents; CDS / transcript / variant-collection / scan_windows small scopes)")
